@@ -3,6 +3,7 @@ package main
 import (
 	"fmt"
 	"go/ast"
+	"go/token"
 	"go/types"
 
 	"golang.org/x/tools/go/packages"
@@ -53,6 +54,11 @@ func rootObj(info *types.Info, defs map[types.Object]ast.Expr, e ast.Expr, depth
 		o := info.Uses[x]
 		if d, ok := defs[o]; ok && d != nil {
 			if r := rootObj(info, defs, d, depth+1); r != nil {
+				return r
+			}
+		}
+		if md, ok := multiDefs[o]; ok && curProg != nil {
+			if r := curProg.resultRoot(info, md.call, md.idx); r != nil {
 				return r
 			}
 		}
@@ -140,6 +146,13 @@ func ruleF1(r *Run) {
 				n++
 				key := fmt.Sprintf("appendBinary in %s #%d", fname, n)
 				b := ast.Unparen(call.Args[1])
+				if id, ok := b.(*ast.Ident); ok { // a named local for the converted bytes
+					if d, ok := defs[info.Uses[id]]; ok && d != nil {
+						if _, isCall := ast.Unparen(d).(*ast.CallExpr); isCall {
+							b = ast.Unparen(d)
+						}
+					}
+				}
 				if bc, ok := b.(*ast.CallExpr); ok {
 					if f := Callee(info, bc); f != nil && f.Name() == "ToUnsafeBytes" && len(bc.Args) == 1 {
 						s := identObj(info, bc.Args[0])
@@ -281,6 +294,22 @@ func ruleF2(r *Run) {
 					if coll == nil {
 						r.Undec(key, head.Pos(), "count "+types.ExprString(head.Args[0])+" is not LEN(collection) in a recognised spelling")
 						continue
+					}
+					// (b') body is `if !fastWriter(coll) { otherWriter(coll) }`: exactly one of two body
+					// writers handles the collection (the first reports whether it did)
+					if len(body) == 1 {
+						if ifs, ok := body[0].(*ast.IfStmt); ok && ifs.Init == nil && ifs.Else == nil && len(ifs.Body.List) == 1 {
+							if u, ok := ast.Unparen(ifs.Cond).(*ast.UnaryExpr); ok && u.Op == token.NOT {
+								c1, ok1 := ast.Unparen(u.X).(*ast.CallExpr)
+								es, ok2 := ifs.Body.List[0].(*ast.ExprStmt)
+								if ok1 && ok2 && len(c1.Args) >= 1 && rootObj(info, defs, c1.Args[0], 0) == coll {
+									if c2, ok := es.X.(*ast.CallExpr); ok && len(c2.Args) >= 1 && rootObj(info, defs, c2.Args[0], 0) == coll {
+										r.Ok(key, head.Pos(), "one of two body writers handles the same collection")
+										continue
+									}
+								}
+							}
+						}
 					}
 					// (b) body is one call handing the collection to a body writer
 					if len(body) == 1 {
